@@ -318,11 +318,18 @@ class Array:
 
     def format(self) -> str:
         s = self.size.format() if self.size else ""
-        return f"{self.array_of.format()}[{s}]"
+        array_of = self.array_of
+        if isinstance(array_of, Type):
+            return f"{array_of.format()}[{s}]"
+        else:
+            # the dimensions of the element type follow this one
+            return array_of.format_decl(f"[{s}]")
 
     def format_decl(self, name: str) -> str:
         s = self.size.format() if self.size else ""
-        return f"{self.array_of.format()} {name}[{s}]"
+        # the dimensions (or pointer grouping) of the element type follow
+        # this one, so the element formats the rest of the declarator
+        return self.array_of.format_decl(f"{name}[{s}]")
 
 
 @dataclass
